@@ -199,7 +199,8 @@ def relative_lengths(B):
     return sorted({1, 2, B - 1, B, B + 1, 2 * B - 1, 2 * B, 2 * B + 1, 3 * B + 5} - {0, -1})
 
 
-def e2e_layout(rng, B, nmsgs, final_nl=True, long_lines=False, first_undated=0, crlf=False, safe_head=True, notation="iso"):
+def e2e_layout(rng, B, nmsgs, final_nl=True, long_lines=False, first_undated=0, crlf=False, safe_head=True, notation="iso",
+               early_nul=False):
     """A file whose line lengths are chosen relative to block size B (B-1, B, B+1, 2B+-1, many blocks), with
     continuation lines, blank lines, CRLF, NUL and non-UTF-8 bytes."""
     lines, dated = [], []
@@ -218,6 +219,10 @@ def e2e_layout(rng, B, nmsgs, final_nl=True, long_lines=False, first_undated=0, 
                 ln += b"." * max(0, want - len(ln) - 1)
             lines.append(ln + b"\n")
             dated.append(True)
+            if early_nul and j == 0:
+                # NUL bytes right at the start of the file: in the first head line's tail or on its continuation line
+                lines.append(rng.choice([b"\0", b"bin\0\0\0dump", b"\0\0\0\0\0\0\0\0"]) + b"\n")
+                dated.append(False)
     targets = relative_lengths(B)
     if long_lines:
         targets += [2057, 2100, 4113, 70000]
